@@ -410,11 +410,11 @@ def setter_mutated_objects(rng, g, counts=None):
         'method': [('return_type', ['reference', 'String', '', None, b'reference', b'uint8']), ('name', ['', None, b'm']),
                    ('class_origin', ['', b'C'])],
         'prop': [('type', ['reference', 'String', '', None, b'uint8']), ('embedded_object', ['', 'foo', 'object', b'instance']),
-                 ('name', ['', None]), ('reference_class', ['', 'C']), ('is_array', [None, True]), ('array_size', [0, 'x'])],
+                 ('name', ['', None]), ('reference_class', ['', 'C']), ('is_array', [None, True]), ('array_size', [0, 7])],
         'param': [('type', ['reference', 'UINT8', '', None, b'reference']), ('embedded_object', ['', 'foo']),
                   ('name', ['', None]), ('is_array', [None, True]), ('array_size', [0])],
         'qual': [('type', ['reference', 'String', None, b'string']), ('name', ['', None]), ('propagated', ['x', 1])],
-        'qdecl': [('type', ['reference', 'String', None]), ('is_array', [None, 'x']), ('name', ['', None]),
+        'qdecl': [('type', ['reference', 'String', None]), ('is_array', [True, 'x']), ('name', ['', None]),
                   ('scopes', [{'class': True}, {'foo': True}, {'any': False}])],
         'inst': [('classname', ['', None, b'C'])],
         'cls': [('classname', ['', None]), ('superclass', ['', b'S'])],
